@@ -131,6 +131,14 @@ def match(s, pat):
         elif k in ("lo", "hi"):
             if getattr(s, k) != v:
                 return False
+        elif k == "lo_ge":
+            ints = [c for c in s.lo_consts if isinstance(c, int)]
+            if not ints or max(ints) < v:
+                return False
+        elif k == "hi_ge":
+            ints = [c for c in s.hi_consts if isinstance(c, int)]
+            if not ints or max(ints) < v:
+                return False
         elif k == "any_names":
             if not set(v) & set(s.names):
                 return False
